@@ -138,6 +138,39 @@ def quiet_():
     return quiet()
 
 
+def theorem_tie(eng, rng, oc, n):
+    """(d) the domain of C12_emitted_text_is_an_item: generated abstract items are tidy, the model's canonical text is
+    the text the page was written with, and the real Note.to_string of the really compiled note is the model's
+    render_item (emit_form it)."""
+    from harness import apage, fc
+    from pathlib import Path
+    from zorg.domain.models import Note, TodoPayload
+    from zorg.domain.types import NoteType
+    uid = [0]
+    today = dt.date(*TODAY)
+    for _ in range(n):
+        it = apage.gen_item(rng, uid)
+        text = apage.render_item(it)
+        oc.evaluations += 1
+        case = {"item_text": text, "item": it}
+        if not eng.call("item_tidy", it) or eng.call("item_text", it) != text:
+            oc.corr_mismatch.append(("abstract item: tidy / canonical text", case, eng.call("item_text", it), text))
+            return False
+        r = fc.compile_text("# h\n\n" + text + "\n", today, False)
+        if r["status"] != "ok" or r["nerrors"] or len(r["notes"]) != 1:
+            oc.spec_fail.append((case, {k: r[k] for k in ("status", "nerrors")}, "a well-formed item compiles to one note", None))
+            return False
+        n1 = r["notes"][0]
+        tp = TodoPayload(priority=n1["todo"][0], status=NoteType(n1["todo"][1])) if n1["todo"] else None
+        emitted = Note(n1["body"], Path("p.zo"), n1["line"], todo_payload=tp).to_string()
+        want = eng.call("item_emit", it) + "\n"
+        if emitted != want:
+            oc.corr_mismatch.append(("Note.to_string vs render_item (emit_form it)", case, emitted, want))
+            return False
+        oc.count("theorem_items")
+    return True
+
+
 def run(oc, tier, seed):
     rng = random.Random(seed)
     pool = lib.pool()
@@ -213,6 +246,8 @@ def run(oc, tier, seed):
                 break
             oc.count("pages_roundtripped")
     if not stop and not any(f[3] is None for f in oc.spec_fail):
+        theorem_tie(eng, rng, oc, 40 if tier == "quick" else 1500)
+    if not stop and not any(f[3] is None for f in oc.spec_fail) and not oc.corr_mismatch:
         for _ in range(n_dirs):
             if not real_pipeline(rng, oc):
                 break
